@@ -672,15 +672,15 @@ End Formatter.
 Lemma read_file_nofault p fs k tr f :
   files fs p = Some f ->
   exists w', read_file p {| w_fs := fs; w_sched := []; w_left := 5 + k; w_trace := tr |} = Go (Some (f_data f)) w' /\
-             w_fs w' = fs.
+             w_fs w' = fs /\ w_sched w' = [] /\ k <= w_left w'.
 Proof.
   intro Hf. unfold read_file, bind, syscall, ret_, file_len. simpl. rewrite Hf. simpl. rewrite Hf. simpl.
   rewrite Hf. destruct (f_data f) as [|x l] eqn:Ed.
-  - simpl. eexists. split; reflexivity.
+  - simpl. eexists. repeat split; simpl; lia.
   - cbn [skipn List.length firstn]. rewrite firstn_all.
     cbn [read_loop app List.length]. unfold syscall. cbn [w_left w_sched w_fs hd tl fst snd sys_exec].
     rewrite Hf, Ed. cbn [List.length skipn]. rewrite skipn_all.
-    simpl. eexists. split; reflexivity.
+    simpl. eexists. repeat split; simpl; lia.
 Qed.
 
 Section FormatterNoFault.
@@ -814,3 +814,285 @@ Section FormatterClean.
     - destruct Hp as [-> _]. simpl. discriminate.
   Qed.
 End FormatterClean.
+
+(* ---------- several files in one invocation ---------- *)
+Section Multi.
+  Variable fmt1 : bytes -> option bytes.
+  Variable parts : bytes -> list bytes.
+  Variable join : bytes -> list bytes -> bytes.
+  Notation fmtall := (fmt_all fmt1 parts join).
+  Notation checkok := (check_ok fmt1 parts).
+
+  (* target t held f0 in fs and holds the complete formatted text, with the protocol's final mode, in fs' *)
+  Definition formatted_to (v : variant) (fs fs' : fsys) (t : path) : Prop :=
+    exists f0 out, files fs t = Some f0 /\ fmtall (f_data f0) = Some out /\
+                   files fs' t = Some {| f_data := out; f_mode := final_mode v f0 |}.
+
+  Lemma fout_step v c target tmp w b w' :
+    fout fmt1 parts join v c target tmp w b w' ->
+    (forall q, q <> target -> q <> tmp -> files (w_fs w') q = files (w_fs w) q) /\
+    (files (w_fs w') target = files (w_fs w) target \/ formatted_to v (w_fs w) (w_fs w') target) /\
+    (b = Some true -> c = CmdWrite -> formatted_to v (w_fs w) (w_fs w') target).
+  Proof.
+    intros [[H1 [_ H3]] | [Hc [f0 [out [Hf0 [Hfmt [Hw Hb]]]]]]].
+    - rewrite H1. repeat split; auto. intros E ->. destruct (H3 E) as [? [_ []]].
+    - destruct Hw as [[Hq _] | written m Hne H0 [Ht1 [Ht2 [Ht3 Ht4]]] | Hne H0 Ht Htmp Hq Hd].
+      + repeat split; auto. intros E _. exists f0, out. auto.
+      + repeat split; auto. intros E _. exists f0, out. auto.
+      + repeat split; auto.
+        * right. exists f0, out. auto.
+        * intros _ _. exists f0, out. auto.
+  Qed.
+
+  (* how far the run got: a prefix of the targets is formatted, then at most one target is
+     "old or formatted", all later ones are untouched *)
+  Inductive progress (v : variant) (fs fs' : fsys) : list path -> Prop :=
+  | PNil : progress v fs fs' []
+  | PDone t ts : formatted_to v fs fs' t -> progress v fs fs' ts -> progress v fs fs' (t :: ts)
+  | PStop t ts : (files fs' t = files fs t \/ formatted_to v fs fs' t) ->
+                 (forall t', In t' ts -> files fs' t' = files fs t') -> progress v fs fs' (t :: ts).
+
+  Definition frame (fl : list (path * path)) (fs fs' : fsys) : Prop :=
+    forall q, ~ In q (map fst fl) -> ~ In q (map snd fl) -> files fs' q = files fs q.
+
+  Lemma formatted_to_transport v fs fs1 fs' t :
+    files fs1 t = files fs t -> formatted_to v fs1 fs' t -> formatted_to v fs fs' t.
+  Proof. intros E [f0 [out [H1 [H2 H3]]]]. exists f0, out. rewrite <- E. auto. Qed.
+
+  Lemma progress_transport v fs fs1 fs' ts :
+    (forall t, In t ts -> files fs1 t = files fs t) -> progress v fs1 fs' ts -> progress v fs fs' ts.
+  Proof.
+    intros E P. induction P as [|t ts Hf P IH|t ts Hf Hr].
+    - constructor.
+    - apply PDone.
+      + eapply formatted_to_transport; [|exact Hf]. apply E. left; auto.
+      + apply IH. intros t' Ht'. apply E. right; auto.
+    - apply PStop.
+      + destruct Hf as [Hf|Hf].
+        * left. rewrite Hf. apply E. left; auto.
+        * right. eapply formatted_to_transport; [|exact Hf]. apply E. left; auto.
+      + intros t' Ht'. rewrite Hr; auto. apply E. right; auto.
+  Qed.
+
+  Lemma fmt_files_write_post v fl : forall w,
+    NoDup (map fst fl) -> (forall p, In p fl -> ~ In (snd p) (map fst fl)) ->
+    post (fmt_files fmt1 parts join v CmdWrite fl) w
+         (fun b w' => frame fl (w_fs w) (w_fs w') /\ progress v (w_fs w) (w_fs w') (map fst fl) /\
+                      (b = true -> Forall (formatted_to v (w_fs w) (w_fs w')) (map fst fl)))
+         (fun s w' => s = Killed /\ frame fl (w_fs w) (w_fs w') /\ progress v (w_fs w) (w_fs w') (map fst fl)).
+  Proof.
+    induction fl as [|[t tmp] rest IH]; intros w Hnd Htmp.
+    - simpl. apply post_ret. repeat split; auto; try (intros q _ _; reflexivity); constructor.
+    - simpl in Hnd. inversion Hnd as [|? ? Hnotin Hnd']; subst.
+      assert (Htmp_t : ~ In tmp (t :: map fst rest)) by (apply (Htmp (t, tmp)); left; auto).
+      assert (Htmp' : forall p, In p rest -> ~ In (snd p) (map fst rest)).
+      { intros p Hp Hin. apply (Htmp p); [right; auto | right; auto]. }
+      assert (Hrest_t : forall p, In p rest -> snd p <> t).
+      { intros p Hp E. apply (Htmp p); [right; auto | left; auto]. }
+      simpl fmt_files. apply post_bind.
+      eapply post_weaken; [apply fmt_file_post | |].
+      + intros b w1 Ho. apply fout_step in Ho. destruct Ho as [F1 [F2 F3]].
+        assert (Hunt : forall t', In t' (map fst rest) -> files (w_fs w1) t' = files (w_fs w) t').
+        { intros t' Ht'. apply F1.
+          - intro E; subst. contradiction.
+          - intro E; subst. apply Htmp_t. right; auto. }
+        assert (Hframe1 : forall q, ~ In q (map fst ((t, tmp) :: rest)) -> ~ In q (map snd ((t, tmp) :: rest)) ->
+                                    files (w_fs w1) q = files (w_fs w) q).
+        { intros q Hq1 Hq2. apply F1; intro E; subst; [apply Hq1 | apply Hq2]; left; auto. }
+        destruct b.
+        * specialize (F3 eq_refl eq_refl).
+          eapply post_weaken; [apply (IH w1 Hnd' Htmp') | |].
+          -- intros b' w' [Fr [Pr Hall]].
+             assert (Ht_keep : files (w_fs w') t = files (w_fs w1) t).
+             { apply Fr; auto. intro Hin. apply in_map_iff in Hin. destruct Hin as [p [Ep Hp]].
+               apply (Hrest_t p Hp). auto. }
+             assert (Hdone : formatted_to v (w_fs w) (w_fs w') t).
+             { destruct F3 as [f0 [out [A [B C]]]]. exists f0, out. rewrite Ht_keep. auto. }
+             repeat split.
+             ++ intros q Hq1 Hq2. rewrite Fr.
+                ** apply Hframe1; auto.
+                ** intro Hin. apply Hq1. right; auto.
+                ** intro Hin. apply Hq2. right; auto.
+             ++ simpl. apply PDone; auto. eapply progress_transport; [|exact Pr]. auto.
+             ++ intro E. simpl. constructor; auto.
+                specialize (Hall E). rewrite Forall_forall in *. intros t' Ht'.
+                eapply formatted_to_transport; [|apply Hall; auto]. auto.
+          -- intros s w' [-> [Fr Pr]]. split; auto.
+             assert (Ht_keep : files (w_fs w') t = files (w_fs w1) t).
+             { apply Fr; auto. intro Hin. apply in_map_iff in Hin. destruct Hin as [p [Ep Hp]].
+               apply (Hrest_t p Hp). auto. }
+             split.
+             ++ intros q Hq1 Hq2. rewrite Fr.
+                ** apply Hframe1; auto.
+                ** intro Hin. apply Hq1. right; auto.
+                ** intro Hin. apply Hq2. right; auto.
+             ++ simpl. apply PDone.
+                ** destruct F3 as [f0 [out [A [B C]]]]. exists f0, out. rewrite Ht_keep. auto.
+                ** eapply progress_transport; [|exact Pr]. auto.
+        * apply post_ret. repeat split; auto.
+          -- simpl. apply PStop; auto.
+          -- discriminate.
+      + intros s w1 [-> Ho]. apply fout_step in Ho. destruct Ho as [F1 [F2 F3]]. split; auto. split.
+        * intros q Hq1 Hq2. apply F1; intro E; subst; [apply Hq1 | apply Hq2]; left; auto.
+        * simpl. apply PStop; auto. intros t' Ht'. apply F1.
+          -- intro E; subst. contradiction.
+          -- intro E; subst. apply Htmp_t. right; auto.
+  Qed.
+
+  Lemma progress_each v fs fs' ts t :
+    progress v fs fs' ts -> In t ts -> files fs' t = files fs t \/ formatted_to v fs fs' t.
+  Proof.
+    intro P. induction P as [|x ts Hf P IH|x ts Hf Hr]; intro Hin.
+    - destruct Hin.
+    - destruct Hin as [->|Hin]; auto.
+    - destruct Hin as [->|Hin]; auto.
+  Qed.
+
+  Lemma progress_unparsable v fs fs' pre t post f0 :
+    progress v fs fs' (pre ++ t :: post) -> files fs t = Some f0 -> fmtall (f_data f0) = None ->
+    files fs' t = files fs t /\ forall t', In t' post -> files fs' t' = files fs t'.
+  Proof.
+    intros P Hf0 Hn.
+    assert (Hnot : ~ formatted_to v fs fs' t).
+    { intros [f0' [out [A [B _]]]]. rewrite Hf0 in A. inversion A; subst. congruence. }
+    revert P. induction pre as [|x pre IH]; simpl; intro P.
+    - inversion P as [|? ? Hf _|? ? Hf Hr]; subst; [contradiction|].
+      split; auto. destruct Hf; [auto | contradiction].
+    - inversion P as [|? ? _ P'|? ? _ Hr]; subst; auto.
+      split; [apply Hr; apply in_or_app; right; left; auto|].
+      intros t' Ht'. apply Hr. apply in_or_app. right. right. auto.
+  Qed.
+
+  Definition w0m (fs : fsys) (sched : list outcome) (kill : nat) : world :=
+    {| w_fs := fs; w_sched := sched; w_left := kill; w_trace := [] |}.
+
+  (* T7: fmt -w over a list of files *)
+  Lemma fmt_w_multi_atomic v fl fs sched kill :
+    NoDup (map fst fl) -> (forall p, In p fl -> ~ In (snd p) (map fst fl)) ->
+    let r := run_files fmt1 parts join v CmdWrite fl fs sched kill in
+    progress v fs (r_fs r) (map fst fl) /\ frame fl fs (r_fs r) /\
+    (r_status r = Exit 0 -> Forall (formatted_to v fs (r_fs r)) (map fst fl)) /\
+    r_status r <> OutOfFuel.
+  Proof.
+    intros Hnd Htmp. cbv zeta. unfold run_files.
+    pose proof (fmt_files_write_post v fl (w0m fs sched kill) Hnd Htmp) as H. unfold post, w0m in H.
+    destruct (fmt_files fmt1 parts join v CmdWrite fl {| w_fs := fs; w_sched := sched; w_left := kill; w_trace := [] |})
+      as [[|] w'|s w']; cbn [w_fs] in H; cbn [r_fs r_status].
+    - destruct H as [Fr [Pr Hall]]. repeat split; auto. discriminate.
+    - destruct H as [Fr [Pr Hall]]. repeat split; auto; discriminate.
+    - destruct H as [-> [Fr Pr]]. repeat split; auto; discriminate.
+  Qed.
+
+  (* ---- fmt -c over a list of files ---- *)
+  Definition reads_ext (fl : list (path * path)) (w w' : world) : Prop :=
+    exists evs, w_trace w' = evs ++ w_trace w /\
+                Forall (fun e => exists t, In t (map fst fl) /\ is_read_call t (fst e)) evs.
+
+  Lemma fmt_files_check_post v fl : forall w,
+    post (fmt_files fmt1 parts join v CmdCheck fl) w
+         (fun b w' => w_fs w' = w_fs w /\ reads_ext fl w w' /\
+                      (b = true -> Forall (fun t => exists f0, files (w_fs w) t = Some f0 /\ checkok (f_data f0) = true)
+                                          (map fst fl)))
+         (fun s w' => s = Killed /\ w_fs w' = w_fs w /\ reads_ext fl w w').
+  Proof.
+    induction fl as [|[t tmp] rest IH]; intro w.
+    - simpl. apply post_ret. repeat split; auto. exists []. split; auto.
+    - simpl fmt_files. apply post_bind. eapply post_weaken; [apply fmt_file_post | |].
+      + intros b w1 [[H1 [[evs [He Hf]] H3]] | [Hc _]]; [|discriminate].
+        assert (R1 : reads_ext ((t, tmp) :: rest) w w1).
+        { exists evs. split; auto. eapply Forall_impl; [|exact Hf]. intros e He'. exists t. split; auto. left; auto. }
+        destruct b.
+        * eapply post_weaken; [apply (IH w1) | |].
+          -- intros b' w' [E [[evs' [He' Hf']] Hall]]. rewrite E, H1. repeat split; auto.
+             ++ exists (evs' ++ evs). rewrite He', He, app_assoc. split; auto.
+                apply Forall_app. split.
+                ** eapply Forall_impl; [|exact Hf']. intros e [t' [Ht' Hr]]. exists t'. split; auto. right; auto.
+                ** eapply Forall_impl; [|exact Hf]. intros e Hr. exists t. split; auto. left; auto.
+             ++ intro Eb. simpl. constructor.
+                ** destruct (H3 eq_refl) as [f0 [A B]]. exists f0. auto.
+                ** specialize (Hall Eb). rewrite H1 in Hall. exact Hall.
+          -- intros s w' [-> [E [evs' [He' Hf']]]]. rewrite E, H1. repeat split; auto.
+             exists (evs' ++ evs). rewrite He', He, app_assoc. split; auto.
+             apply Forall_app. split.
+             ++ eapply Forall_impl; [|exact Hf']. intros e [t' [Ht' Hr]]. exists t'. split; auto. right; auto.
+             ++ eapply Forall_impl; [|exact Hf]. intros e Hr. exists t. split; auto. left; auto.
+        * apply post_ret. repeat split; auto. discriminate.
+      + intros s w1 [-> [[H1 [[evs [He Hf]] _]] | [Hc _]]]; [|discriminate].
+        repeat split; auto. exists evs. split; auto.
+        eapply Forall_impl; [|exact Hf]. intros e He'. exists t. split; auto. left; auto.
+  Qed.
+
+  (* T8: fmt -c f1 … fn never writes, under any schedule, and status 0 means every file is formatted *)
+  Lemma check_multi_no_write v fl fs sched kill :
+    let r := run_files fmt1 parts join v CmdCheck fl fs sched kill in
+    r_fs r = fs /\
+    Forall (fun e => exists t, In t (map fst fl) /\ is_read_call t (fst e)) (r_trace r) /\
+    (r_status r = Exit 0 ->
+     Forall (fun t => exists f0, files fs t = Some f0 /\ checkok (f_data f0) = true) (map fst fl)).
+  Proof.
+    cbv zeta. unfold run_files.
+    pose proof (fmt_files_check_post v fl (w0m fs sched kill)) as H. unfold post, w0m in H.
+    destruct (fmt_files fmt1 parts join v CmdCheck fl {| w_fs := fs; w_sched := sched; w_left := kill; w_trace := [] |})
+      as [[|] w'|s w']; cbn [w_fs w_trace] in H; cbn [r_fs r_status r_trace].
+    - destruct H as [E [[evs [He Hf]] Hall]]. rewrite app_nil_r in He. rewrite He. repeat split; auto. now apply Forall_rev.
+    - destruct H as [E [[evs [He Hf]] Hall]]. rewrite app_nil_r in He. rewrite He. repeat split; auto.
+      + now apply Forall_rev.
+      + discriminate.
+    - destruct H as [-> [E [evs [He Hf]]]]. rewrite app_nil_r in He. rewrite He. repeat split; auto.
+      + now apply Forall_rev.
+      + discriminate.
+  Qed.
+
+  (* fault-free: status 0 exactly when every file is formatted *)
+  Definition all_ok (fs : fsys) (fl : list (path * path)) : bool :=
+    forallb (fun t => match files fs t with Some f => checkok (f_data f) | None => false end) (map fst fl).
+
+  Lemma check_files_nofault v fl : forall fs k tr,
+    (forall t, In t (map fst fl) -> files fs t <> None) ->
+    exists w', fmt_files fmt1 parts join v CmdCheck fl
+                 {| w_fs := fs; w_sched := []; w_left := 5 * List.length fl + k; w_trace := tr |} = Go (all_ok fs fl) w'.
+  Proof.
+    induction fl as [|[t tmp] rest IH]; intros fs k tr Hex.
+    - simpl. eexists. reflexivity.
+    - destruct (files fs t) as [f|] eqn:Hf; [|exfalso; apply (Hex t); [left; auto | auto]].
+      replace (5 * List.length ((t, tmp) :: rest) + k) with (5 + (5 * List.length rest + k)) by (simpl; lia).
+      destruct (read_file_nofault t fs (5 * List.length rest + k) tr f Hf) as [w1 [Hr [Hfs [Hs Hl]]]].
+      unfold all_ok. cbn [map fst forallb fmt_files]. rewrite Hf. unfold fmt_file, bind. rewrite Hr. unfold ret_.
+      destruct (checkok (f_data f)) eqn:Eok; cbn [andb].
+      + destruct w1 as [fs1 s1 l1 t1]. simpl in *. subst fs1 s1.
+        replace l1 with (5 * List.length rest + (l1 - 5 * List.length rest)) by lia.
+        apply IH. intros t' Ht'. apply Hex. right; auto.
+      + eexists. reflexivity.
+  Qed.
+
+  Lemma check_truth_multi v fl fs k :
+    (forall t, In t (map fst fl) -> files fs t <> None) ->
+    r_status (run_files fmt1 parts join v CmdCheck fl fs [] (5 * List.length fl + k)) =
+    if all_ok fs fl then Exit 0 else Exit 1.
+  Proof.
+    intro Hex. unfold run_files. destruct (check_files_nofault v fl fs k [] Hex) as [w' ->].
+    now destruct (all_ok fs fl).
+  Qed.
+
+  (* stdin mode *)
+  Lemma stdin_truth c input :
+    (fst (fmt_stdin fmt1 c input) = Exit 0 <->
+     match c with
+     | CmdWrite => False
+     | CmdCheck => fmt1 input = Some input
+     | CmdPlain => fmt1 input <> None
+     end) /\
+    (c = CmdPlain -> forall o, fmt1 input = Some o -> snd (fmt_stdin fmt1 c input) = o).
+  Proof.
+    unfold fmt_stdin, part_ok. destruct c; simpl.
+    - split; [split; [discriminate | tauto] | discriminate].
+    - split; [|discriminate]. destruct (fmt1 input) as [o|]; simpl.
+      + destruct (str_eqb input o) eqn:E; simpl.
+        * apply str_eqb_eq in E. subst. tauto.
+        * apply str_eqb_neq in E. split; [discriminate|]. intro H. inversion H. subst. contradiction.
+      + split; discriminate.
+    - split.
+      + destruct (fmt1 input); simpl; split; auto; try discriminate. intro H. contradiction.
+      + intros _ o Ho. rewrite Ho. reflexivity.
+  Qed.
+End Multi.
